@@ -70,7 +70,8 @@ theorem process_ranges_over_queue :
 
 /-- both workers are registered with the wait group Close waits for, and deregister when they return -/
 theorem workers_in_wait_group : Facts.m3LifeNewReporterOps =
-    ["r.wg.Add(1)", "defer r.wg.Done()", "r.process()", "r.wg.Add(1)", "defer r.wg.Done()", "r.timeLoop()"] := rfl
+    ["r.now.Store(time.Now().UnixNano())", "r.wg.Add(1)", "defer r.wg.Done()", "r.process()", "r.wg.Add(1)",
+     "defer r.wg.Done()", "r.timeLoop()"] := rfl
 
 /-- capacity ≥ 1: a non-positive `MaxQueueSize` is replaced by the default before the channel is made -/
 theorem queue_capacity_positive :
